@@ -38,8 +38,8 @@ ASSUMPTIONS = [
     'the shared tokenizer queue and savedTokens are diagnostics only: a non-empty queue is counted, a differing battery result is the verdict',
 ]
 MIN_EVENTS = {
-    'quick': {'oracle.sentinels': 15000, 'oracle.battery': 4000, 'oracle.reuse': 4000, 'faults.injected': 9000, 'calls.raised': 9000},
-    'thorough': {'oracle.sentinels': 400000, 'oracle.battery': 100000, 'oracle.reuse': 100000, 'faults.injected': 250000, 'calls.raised': 250000},
+    'quick': {'oracle.sentinels': 13000, 'oracle.battery': 4000, 'oracle.reuse': 4000, 'faults.injected': 9000, 'calls.raised': 9000},
+    'thorough': {'oracle.sentinels': 330000, 'oracle.battery': 100000, 'oracle.reuse': 100000, 'faults.injected': 220000, 'calls.raised': 250000},
 }
 
 # ------------------------------------------------------------------------------------------------ probe battery
